@@ -194,6 +194,7 @@ class Walker:
         self.hash_sites: List[str] = []
         self.local_defs: Dict[str, ast.FunctionDef] = {}
         self.touched: set = set()       # section path + key that the normaliser reads or writes by name
+        self.enum_checks: List[dict] = []   # enumeration checks whose message is not constant text
         self.live: Dict[Tuple[str, str], List[dict]] = {}   # (section var, key) -> numeric rules checked on that cell
         self.mod = mod
 
@@ -722,7 +723,17 @@ class Walker:
             try:
                 kind, v, subj, g = self.guard(st.test)
                 path = self.fstr(first.args[1], f"line {first.lineno}")
-                msg = self.fstr(first.args[2], path)
+                msg_prefix = None
+                try:
+                    msg = self.fstr(first.args[2], path)
+                except Opaque:
+                    # message formats the offending value (`{x!r}`): no constant text, but the check itself
+                    # is still an enumeration rule — keep it for the OUTPUT monitor (`enumChecks`)
+                    m = first.args[2]
+                    if kind == "enum" and isinstance(m, ast.JoinedStr) and m.values and isinstance(m.values[0], ast.Constant):
+                        msg, msg_prefix = None, str(m.values[0].value)
+                    else:
+                        raise
                 conds = self.cur_conds()
                 if any(c is OPAQUE_COND for c in conds):
                     raise Opaque("under an untranslated condition")
@@ -748,9 +759,15 @@ class Walker:
                     sg = v.ve.single_get()
                     if sg is not None and not out:
                         out = list(sg[0].path) + [sg[1]]
-                    self.rules.append({"kind": "enum", "path": path, "msg": msg, "conds": conds, "val": v.ve,
-                                       "lower": v.lower, "allowed": list(g), "doc": parse_enum_doc(msg), "out": out,
-                                       "line": st.lineno})
+                    erule = {"kind": "enum", "path": path, "msg": msg if msg is not None else "", "conds": conds, "val": v.ve,
+                             "lower": v.lower, "allowed": list(g),
+                             "doc": parse_enum_doc(msg if msg is not None else msg_prefix), "out": out,
+                             "line": st.lineno, "subj_src": ast.unparse(subj),
+                             "subj_is_cell": isinstance(subj, ast.Subscript) and self.sec_of(subj.value) is not None}
+                    if msg is None:
+                        self.enum_checks.append(erule)
+                        raise Opaque("message formats the value (kept as an output-only enumeration check)")
+                    self.rules.append(erule)
                 made = True
             except Opaque as ex:
                 self.record_opaque(first, str(ex))
@@ -829,6 +846,21 @@ def suggest_facts(mod: ast.Module) -> Dict[str, bool]:
     return facts
 
 
+def enum_folded(fn: ast.FunctionDef, r: dict) -> bool:
+    """Is the value that was tested (e.g. the lower-cased copy) also what is stored at the rule's
+    output path?  True when the tested expression is the cell itself, or when a later assignment
+    `X["<last key of out>"] = <the tested expression>` exists."""
+    if r.get("subj_is_cell"):
+        return True
+    key = (r["out"] or r["path"].split("."))[-1]
+    for n in ast.walk(fn):
+        if isinstance(n, ast.Assign) and n.lineno > r["line"] and ast.unparse(n.value) == r["subj_src"]:
+            for t in n.targets:
+                if isinstance(t, ast.Subscript) and isinstance(t.slice, ast.Constant) and t.slice.value == key:
+                    return True
+    return False
+
+
 def duplicate_capable_sites(fn: ast.FunctionDef) -> Dict[str, List[str]]:
     """`_err` sites that can put the SAME line into the error list more than once:
     `same` = one (path, message) source text reported by two or more sites;
@@ -860,13 +892,16 @@ def translate(repo: Path) -> dict:
     w.param = fn.args.args[0].arg
     w.block(fn.body)
     w.finalize()
+    for r in list(w.rules) + w.enum_checks:
+        if r["kind"] == "enum":
+            r["folded"] = enum_folded(fn, r)
     for r in w.rules:
         if r["kind"] == "num":
             r["aliases"] = alias_paths(r)
     total_err = sum(1 for n in ast.walk(fn) if isinstance(n, ast.Call) and isinstance(n.func, ast.Name) and n.func.id == "_err")
     return {"consts": consts, "rules": w.rules, "opaque": w.opaque, "hash_sites": w.hash_sites,
             "facts": suggest_facts(mod), "total_err_sites": total_err, "touched": w.touched,
-            "dup_sites": duplicate_capable_sites(fn)}
+            "dup_sites": duplicate_capable_sites(fn), "enum_checks": w.enum_checks}
 
 
 # ---- Lean emission ---------------------------------------------------------
@@ -890,7 +925,8 @@ def rule_lean(r: dict) -> str:
     return (f"  -- line {r['line']}: {r['path']} {r['msg']}\n"
             f"  .enum ⟨{lean_str(r['path'])}, {lean_str(r['msg'])}, {conds_lean(r['conds'])},\n"
             f"    {r['val'].lean()},\n"
-            f"    {'true' if r['lower'] else 'false'}, {lean_strs(r['allowed'])}, {lean_strs(r['doc'])}, {lean_strs(r['out'])}⟩")
+            f"    {'true' if r['lower'] else 'false'}, {lean_strs(r['allowed'])}, {lean_strs(r['doc'])}, {lean_strs(r['out'])}, "
+            f"{'true' if r.get('folded') else 'false'}⟩")
 
 
 def _locs(x):
@@ -987,6 +1023,12 @@ def emit(t: dict) -> str:
     L.append(",\n".join(rule_lean(r) for r in t["rules"]))
     L.append("]")
     L.append("")
+    L.append("/-- Enumeration checks whose message formats the offending value (no constant text): not part of")
+    L.append("the message model, but their verdict and the value they leave at the output path are monitored. -/")
+    L.append("def enumChecks : List EnumRule := [")
+    L.append(",\n".join(rule_lean(r)[rule_lean(r).index("  .enum ") + 8:] for r in t.get("enum_checks", [])))
+    L.append("]")
+    L.append("")
     L.append("end Clem.Gen.ValidRules")
     return "\n".join(L) + "\n"
 
@@ -999,6 +1041,9 @@ def summary(t: dict) -> dict:
             "hash_order_sites": len(t["hash_sites"]), "suggest_sorted": t["facts"]["sorted"],
             "suggest_strwrap": t["facts"]["strwrap"],
             "undocumented_num_rules": [r["path"] for r in t["rules"] if r["kind"] == "num" and r["doc"] is None],
+            "enum_checks": [r["path"] for r in t.get("enum_checks", [])],
+            "enum_unfolded": [r["path"] for r in list(t["rules"]) + t.get("enum_checks", [])
+                              if r["kind"] == "enum" and r["lower"] and not r.get("folded")],
             "duplicate_capable_sites": {k: len(v) for k, v in t.get("dup_sites", {}).items()},
             "rewritten_after_check": [r["path"] for r in t["rules"] if r["kind"] == "num" and r.get("rewritten")],
             "alias_rules": {r["path"]: [".".join(a) for a in r["aliases"]] for r in t["rules"]
